@@ -1,13 +1,14 @@
 #!/bin/sh
-# tools/try_mutant.sh <patch.diff> <ID> [<ID>...] : apply a seeded change to /repo, run the quick checks, undo it.
+# tools/try_mutant.sh <patch.diff> <ID> [<ID>...] : apply a seeded change in a scratch worktree of /repo (never in /repo itself),
+# run the quick checks against it through VF_REPO, remove the worktree.
 P="$1"; shift
-cd /repo || exit 2
-git diff --quiet || { echo "/repo has uncommitted changes"; exit 2; }
-git apply --check "$P" 2>/dev/null || { echo "PATCH DOES NOT APPLY: $P"; exit 3; }
-git apply "$P"
+WT=/tmp/vf_try.$$
+git -C /repo worktree add --detach "$WT" HEAD >/dev/null 2>&1 || { echo "cannot create worktree"; exit 2; }
+trap 'git -C /repo worktree remove --force "$WT" >/dev/null 2>&1' EXIT
+git -C "$WT" apply "$P" 2>/dev/null || git -C "$WT" apply --3way "$P" 2>/dev/null || { echo "PATCH DOES NOT APPLY: $P"; exit 3; }
 cd /verif
 for id in "$@"; do
-  ./check "$id" quick > /tmp/mut.$$.log 2>&1; rc=$?
+  VF_REPO="$WT" ./check "$id" quick > /tmp/mut.$$.log 2>&1; rc=$?
   echo "== $id rc=$rc $(grep -c VIOLATION /tmp/mut.$$.log) violation lines"; grep -m2 "failure" /tmp/mut.$$.log | cut -c1-300
 done
-git -C /repo checkout -- . ; rm -f /tmp/mut.$$.log
+rm -f /tmp/mut.$$.log
